@@ -8,6 +8,7 @@
 From Coq Require Import List NArith ZArith Bool Arith.
 From PV Require Import Lib.ListX Model.Pratt Model.SqlGrammar Model.SqlTree Model.PrqlExpr Model.StaticEval
                        Gen.GenSqlStrength Gen.GenStdSql.
+From PV Require Import Model.DateFormat.
 From PV Require Gen.GenDialectFeat.     (* has_concat_function of every dialect (dialect.rs), regenerated on every run *)
 Import ListNotations.
 
@@ -114,6 +115,17 @@ Definition c_concat (has_fn : bool) (n : nat) : construct :=
   if has_fn then {| c_top := 0; c_sk := DCall (FName s_concat_fn) (case_holes n 0); c_declared := expr_strength_default |}
   else {| c_top := 0; c_sk := concat_chain (hole 0 0 true A_Both) 1 (pred n); c_declared := strength_of_concat |}.
 
+(* ---- process_date_to_text (gen_expr.rs): the format, which must be a string literal, is translated into the
+   dialect's format language (Model/DateFormat.v) and the call goes on to the template with the new literal ---- *)
+Definition n_date_to_text : str := [115;116;100;46;100;97;116;101;46;116;111;95;116;101;120;116]%N.
+Definition date_args (dialect : str) (name : str) (args : list rexpr) : option (list rexpr) :=
+  if leqb name n_date_to_text then
+    match args with
+    | [RLit (LStr f); c] => option_map (fun f' => [RLit (LStr f'); c]) (date_fmt dialect f)
+    | _ => None
+    end
+  else Some args.
+
 (* which construct, applied to which RQ arguments (translate_expr's case analysis, in its order) *)
 Definition select (dialect : str) (r : rexpr) : option (construct * list rexpr) :=
   match r with
@@ -131,6 +143,9 @@ Definition select (dialect : str) (r : rexpr) : option (construct * list rexpr) 
         let fl := concat_args r in
         if 2 <=? length fl then Some (c_concat (dialect_has_concat dialect) (length fl), fl) else None
       else
+      match date_args dialect name args with
+      | None => None
+      | Some args =>
       let generic :=
         match lookup_binop name, args with
         | Some o, [a; b] => option_map (fun c => (c, [a; b])) (c_binary o)
@@ -154,6 +169,7 @@ Definition select (dialect : str) (r : rexpr) : option (construct * list rexpr) 
         | _ => None
         end
       else generic
+      end
   end.
 
 (* ---- literals and columns ---- *)
@@ -194,6 +210,19 @@ Definition lit_text (l : lit) : str :=
 Definition col_name (i : nat) : str := [97 + N.of_nat i].    (* a, b, c, ... *)
 Local Close Scope N_scope.
 
+(* translate_literal, strings: on dialects that read backslash escapes inside '...' (string_literal_backslash_escape:
+   mysql, clickhouse, snowflake, redshift -- /repo d2c1667) every backslash is doubled, then every quote *)
+Definition dialect_backslash (dialect : str) : bool :=
+  match find (fun p => leqb (fst p) dialect) GenDialectFeat.feats with
+  | Some p => GenDialectFeat.backslash_escape (snd p)
+  | None => false
+  end.
+Definition lit_text_d (dialect : str) (l : lit) : str :=
+  match l with
+  | LStr s => quote_sql (if dialect_backslash dialect then flat_map (fun c => if N.eqb c 92 then [92; 92]%N else [c]) s else s)
+  | _ => lit_text l
+  end.
+
 (* sql_ast::Expr::Value: a negative number may bind like a unary minus (gen_expr.rs, 83e82fa) *)
 Definition lit_is_negative (l : lit) : bool :=
   match l with LInt z => (z <? 0)%Z | LFloat n _ => (n <? 0)%Z | _ => false end.
@@ -222,7 +251,7 @@ Fixpoint translate (dialect : str) (fuel : nat) (r : rexpr) : option node :=
   | S f =>
     match r with
     | RCol i => Some (0, DAtom (AText (col_name i)), expr_strength_default)
-    | RLit l => if is_temporal_lit l then None else Some (0, DAtom (AText (lit_text l)), lit_strength l)
+    | RLit l => if is_temporal_lit l then None else Some (0, DAtom (AText (lit_text_d dialect l)), lit_strength l)
     | _ =>
         match select dialect r with
         | None => None
